@@ -42,7 +42,7 @@ pub fn srcs(r: &dyn Runner, tier: Tier, with_unchecked: bool) -> Vec<Src> {
 }
 
 pub fn sinks(r: &dyn Runner, _tier: Tier) -> Vec<Sink> {
-    let mut v = vec![Sink::Drop, Sink::Downcast, Sink::DowncastRef, Sink::MutMoveB, Sink::PushB, Sink::InsertB0, Sink::SwapW, Sink::SwapRaw];
+    let mut v = vec![Sink::Drop, Sink::Downcast, Sink::DowncastRef, Sink::DowncastUnchecked, Sink::MutMoveB, Sink::PushB, Sink::InsertB0, Sink::SwapW, Sink::SwapRaw];
     if r.cloneable() { v.push(Sink::LazyB(1)); v.push(Sink::LazyB(2)); }
     v
 }
